@@ -625,6 +625,8 @@ def main(run):
                        "just missing the point, altitude edges, amounts rescaled and +-1 ulp, empty AND/OR, 30% audit mode "
                        "(size + SHA-256 of the selected uuids, duplicate uuids); selection compared as a mask over the unfiltered set; "
                        "non-trivial = selection neither empty nor everything; distinct = distinct (journal, filter, selection)")
+    import t04_text   # extra stage (extension T04): the metadata TEXT block against MetaText.v, byte for byte
+    t04_text.run_text_stage(run, n=(25 if run.tier == "quick" else 300))
     return run.finish(info)
 
 
